@@ -36,9 +36,8 @@ Qed.
 Lemma program_no_write pre sp : sp_kind sp <> KRefresh -> ~ In MWrite (program pre sp).
 Proof.
   intros Hk Hin. unfold program in Hin. destruct (sp_kind sp); try congruence.
-  - cbn in Hin. intuition discriminate.
-  - destruct pre; cbn in Hin; intuition discriminate.
-  - cbn in Hin. intuition discriminate.
+  all: try (cbn in Hin; intuition discriminate).
+  destruct pre; cbn in Hin; intuition discriminate.
 Qed.
 
 (* whole runs: a run in which no step is an MWrite ends with the configuration it started with *)
